@@ -106,10 +106,10 @@ def handleUp (l : Line) : IO Unit := do
     if cutFlag != 0 && modelOk && !Spec.UploadAtomic.structuralFault req then kf := kf ++ ["N20c"]
     let kfs := if kf.isEmpty then "" else " kf=" ++ "+".intercalate kf
     if fail then
-      IO.println s!"spec {l.id} step={step} ok=0 vis=0,0,0 listed=0 inprog=0 earlier=1 idsok=1 stored=-{kfs}"
+      IO.println s!"spec {l.id} step={step} ok=0 vis=0,0,0 lab=0,0,0 listed=0 inprog=0 earlier=1 idsok=1 stored=-{kfs}"
     else
       let n := Spec.UploadAtomic.visible req
-      IO.println s!"spec {l.id} step={step} ok=1 vis={n},{n},{n} listed=1 inprog=0 earlier=1 idsok=1 stored={specFiles (Spec.UploadAtomic.storedFiles env req.parts 0) withData}{kfs}"
+      IO.println s!"spec {l.id} step={step} ok=1 vis={n},{n},{n} lab={n},{n},{n} listed=1 inprog=0 earlier=1 idsok=1 stored={specFiles (Spec.UploadAtomic.storedFiles env req.parts 0) withData}{kfs}"
     step := step + 1
 
 /-- record j of the db-level scenarios (harness idsRecord) -/
